@@ -57,6 +57,7 @@ type Rec struct {
 	Tags []string
 	In   map[string]interface{}
 	Sub  *Rec
+	hid  int // an unexported field: not a member of the JSONata object
 }
 
 var recType = reflect.TypeOf(Rec{})
@@ -138,6 +139,9 @@ func canon(b *strings.Builder, v reflect.Value, depth int) {
 		if v.Type() == recType {
 			b.WriteString("{")
 			for i := 0; i < v.NumField(); i++ {
+				if v.Type().Field(i).PkgPath != "" { // unexported
+					continue
+				}
 				if i > 0 {
 					b.WriteByte(',')
 				}
